@@ -338,6 +338,10 @@ class Ctx:
         if ty is not None and not isinstance(ty, TAny):
             self.assume(ty.inv(t))
             self.assume_class(t, ty)
+            if isinstance(ty, TSeq):
+                self.assume(z3.Select(self.field_array("$len"), Z.Val.id(t)) >= 0)
+            elif isinstance(ty, TTuple):
+                self.assume(z3.Select(self.field_array("$len"), Z.Val.id(t)) == len(ty.elems))
         return SV(t, ty)
 
     def assume_class(self, t, ty):
